@@ -14,6 +14,7 @@
   every generated case (`back = spec` in the driver reply, compared by harness/corr/c13.py).
 -/
 import FcProofs.Lemmas.BytesW
+import FcProofs.Lemmas.FileW
 import FcProofs.Lemmas.CellDataW
 import FcProofs.Lemmas.CsvW
 import FcModel.Spec.C13
@@ -92,6 +93,65 @@ theorem C13_all_dtypes_registered :
     ∀ d ∈ ["int8", "int16", "int32", "int64", "uint8", "uint16", "uint32", "uint64", "float32", "float64"],
       ∃ v, dtypeToVtk d = some v ∧ vtkToDtype v = some d := by
   decide
+
+/-- an array the round trip is claimed for: well-formed (`WArr.wf`: registered item size, `rows·∏tail` items, every
+    bit pattern fits the item size), one of the ten numeric dtypes, fewer than 2^64 payload bytes -/
+structure ArrOk (a : WArr) : Prop where
+  wf : a.wf = true
+  small : a.items.length * dtypeSize a.dt < 256 ^ 8
+  reg : a.dt ∈ ["int8", "int16", "int32", "int64", "uint8", "uint16", "uint32", "uint64", "float32", "float64"]
+
+/-- **C13 (every array of the written file, partial composition).**  Whenever the writer produces a file for
+    field data `F` (any number of point fields of any registered dtypes and shapes, any points, at least one cell),
+    then in that file
+    * the point-data elements carry, in order, the names, component counts and — read back — the dtypes and exact
+      bit patterns of the point fields;
+    * the `Coordinates` element reads back to the padded points;
+    * `connectivity`, `offsets`, `types` read back to the flat corner list, the running sums of the corner counts
+      and the type indices of the cell sequence — the arrays `C13_cells_roundtrip` starts from.
+    Missing for the full `readVtu (writeVtu F) = normalise F`: the cell-data elements (the per-name gathering of
+    `cellFieldValues`) and the assembly of the per-type results in `np.unique` order. -/
+theorem C13_vtu_arrays_roundtrip_partial (F : WFields) (file : VtuFile) (hw : writeVtu id F = some file)
+    (hpf : ∀ f ∈ F.pf, ArrOk f.2) (hpt : ArrOk (pointArray id F)) (hcs : allCells F.cells ≠ [])
+    (hconn : ArrOk ⟨F.conntype, ((allCells F.cells).flatMap (·.2)).length, [], (allCells F.cells).flatMap (·.2)⟩)
+    (hoffs : ArrOk ⟨"int64", (runningSums 0 ((allCells F.cells).map (·.2.length))).length, [],
+                    runningSums 0 ((allCells F.cells).map (·.2.length))⟩)
+    (htys : ∀ tys, mapM' (fun (c : String × List Nat) => cellTypeIndex c.1) (allCells F.cells) = some tys →
+                   ArrOk ⟨"int64", tys.length, [], tys⟩) :
+    file.pointData.map (fun e => (e.name, e.ncomps, readItems e))
+        = F.pf.map (fun f => (f.1, prod f.2.tail, some (f.2.dt, f.2.items))) ∧
+    file.numPoints = F.points.length ∧
+    readItems file.points = some ((pointArray id F).dt, (pointArray id F).items) ∧
+    readItems file.conn = some (F.conntype, (allCells F.cells).flatMap (·.2)) ∧
+    readItems file.offsets = some ("int64", runningSums 0 ((allCells F.cells).map (·.2.length))) ∧
+    ∃ tys, mapM' (fun (c : String × List Nat) => cellTypeIndex c.1) (allCells F.cells) = some tys ∧
+      readItems file.types = some ("int64", tys) := by
+  obtain ⟨h1, h3, h4, h5, ⟨tys, h6, h7⟩, hn⟩ := writeVtu_parts F file hw
+  have hcsb : (!(allCells F.cells).isEmpty) = true := by
+    cases hc : allCells F.cells with
+    | nil => exact absurd hc hcs
+    | cons _ _ => rfl
+  rw [hcsb] at h4 h5 h7
+  -- one array
+  have one : ∀ (name : String) (a : WArr) (given : Option Nat) (e : DataArr), ArrOk a →
+      (∀ k, given = some k → k = prod a.tail) → makeDataArray name a given = some e →
+      readItems e = some (a.dt, a.items) ∧ e.name = name ∧ e.ncomps = prod a.tail := by
+    intro name a given e hok hg he
+    refine C13_dataarray_roundtrip name a given e hok.wf hok.small hg ?_ he
+    intro v hv
+    obtain ⟨v', hv1, hv2⟩ := C13_all_dtypes_registered a.dt hok.reg
+    rw [hv1] at hv
+    cases hv
+    exact hv2
+  refine ⟨?_, hn, ?_, ?_, ?_, tys, h6, ?_⟩
+  · apply mapM'_map_eq _ _ _ F.pf file.pointData h1
+    intro f hf e he
+    obtain ⟨r1, r2, r3⟩ := one f.1 f.2 none e (hpf f hf) (by intro k hk; cases hk) he
+    rw [r1, r2, r3]
+  · exact (one _ _ none _ hpt (by intro k hk; cases hk) h3).1
+  · exact (one _ _ (some 1) _ hconn (by intro k hk; cases hk; rfl) h4).1
+  · exact (one _ _ (some 1) _ hoffs (by intro k hk; cases hk; rfl) h5).1
+  · exact (one _ _ (some 1) _ (htys tys h6) (by intro k hk; cases hk; rfl) h7).1
 
 /-- **C13 (cell types preserved).** Every cell type of `_CELL_TYPE_INDEX_TO_STR` (regenerated from the
     source) is written as an index that the reader maps back to the same type. -/
